@@ -46,11 +46,16 @@ func VerifC10_TO1ProveToRV() { vRvRedirectSpec(true) }
 func vRvRedirectSpec(nopanic bool) {
 	verif.Expect("released")
 	verif.Expect("rejected")
-	verif.Bound("C07", "two registered GUIDs (symbolic, distinct) with P-256 device keys; session nonce present/absent; EAT: payload present/null, nonce claim absent / 16 symbolic bytes / 15 bytes / integer, UEID claim absent / symbolic bytes of length {0,16,17,18} / integer, protected alg in {ES256, ES384, unregistered}, signature 64 symbolic bytes")
+	verif.Bound("C07", "two registered GUIDs (symbolic, distinct) with P-256 device keys, the first voucher with or without its device certificate chain; session nonce present/absent; EAT: payload present/null, nonce claim absent / 16 symbolic bytes / 15 bytes / integer, UEID claim absent / symbolic bytes of length {0,16,17,18} / integer, protected alg in {ES256, ES384, unregistered}, signature 64 symbolic bytes")
 	st := newVState()
 	g0, dev0, blob0 := vRegister(st, "0", vcP256)
 	g1, dev1, blob1 := vRegister(st, "1", vcP256)
 	verif.Assume(g0 != g1)
+	// a registration whose voucher carries no device certificate chain names no device key: nobody can be proven
+	noChain0 := verif.Choose("nochain0", 2) == 1
+	if noChain0 {
+		st.blobs[g0].ov.CertChain = nil
+	}
 	var sessNonce protocol.Nonce
 	copy(sessNonce[:], verif.Bytes("sessnonce", 16))
 	if verif.Choose("hassessnonce", 2) == 1 {
@@ -87,7 +92,8 @@ func vRvRedirectSpec(nopanic bool) {
 	}
 	var token cose.Sign1Tag[eatoken, []byte]
 	algs := []int64{int64(cose.ES256Alg), int64(cose.ES384Alg), 0}
-	token.Protected = cose.HeaderMap{cose.AlgLabel: algs[verif.Choose("alg", 3)]}
+	tokAlg := algs[verif.Choose("alg", 3)]
+	token.Protected = cose.HeaderMap{cose.AlgLabel: tokAlg}
 	token.Unprotected = cose.HeaderMap{}
 	payloadPresent := verif.Choose("payload", 2) == 1
 	if payloadPresent {
@@ -120,10 +126,13 @@ func vRvRedirectSpec(nopanic bool) {
 	dev, want := dev0, blob0
 	if claimed == g1 {
 		dev, want = dev1, blob1
+	} else {
+		verif.Assert(!noChain0, "released => the registered voucher has a device certificate whose key the requester proved")
 	}
 	var untagged cose.Sign1[eatoken, []byte] = token.Sign1
 	ok, verr := untagged.Verify(dev.Pub, nil, nil)
 	verif.Assert(verr == nil && ok, "released => the token is signed with the device key of the voucher registered for the claimed GUID")
+	verif.Assert(vwSpecSigned(vcP256, dev.Pub, tokAlg, vwMust(cbor.Marshal(eat)), token.Signature), "released => the token's signature is that device key's over its protected header and payload (reference predicate)")
 	got, isTag := resp.(*cose.Sign1Tag[protocol.To1d, []byte])
 	verif.Assert(isTag, "a redirect carries the blob")
 	verif.Assert(verif.BytesEq(got.Signature, want.Signature) && got.Payload == want.Payload, "released => the blob is the one registered for that GUID, unmodified")
